@@ -106,7 +106,7 @@ def tangent_stats(c):
             return th2max, lin
     return None, None
 
-def gen_below_pi(op, strata=("zero", "tiny", "below_thr", "at_thr", "above_thr", "small", "generic")):
+def gen_below_pi(op, strata=("zero", "tiny", "below_thr", "at_thr", "above_thr", "small", "smallish", "generic")):
     """predicate case whose tangent arguments have rotation magnitude <= 3.0 < pi (inside the injectivity radius)"""
     def f(g, gn):
         c = corr.gen_case(g, gn, op, force_valid=True)
